@@ -140,6 +140,12 @@ func (sw *Swarm) teardown() {
 
 // Act records an action in the history shown with violations.
 func (sw *Swarm) Act(format string, a ...any) {
+	if f := os.Getenv("VERIF_TRACE_FILE"); f != "" {
+		if fh, err := os.OpenFile(f, os.O_CREATE|os.O_WRONLY|os.O_APPEND, 0o644); err == nil {
+			fmt.Fprintf(fh, "[%6.1fs] "+format+"\n", append([]any{time.Since(sw.Start).Seconds()}, a...)...)
+			fh.Close()
+		}
+	}
 	sw.amu.Lock()
 	sw.actions = append(sw.actions, fmt.Sprintf("[%6.1fs] ", time.Since(sw.Start).Seconds())+fmt.Sprintf(format, a...))
 	if len(sw.actions) > 400 {
